@@ -18,6 +18,8 @@ import (
 	"math/rand"
 	"strconv"
 	"strings"
+	"unicode"
+	"unicode/utf8"
 
 	"github.com/arloliu/go-secs/v2/secs2"
 )
@@ -240,13 +242,184 @@ func RandBytes(r *rand.Rand, n int) []byte {
 	return b
 }
 
+// ---------------------------------------------------------------------------------------------
+// Runes that strconv's quoting functions (Quote, QuoteToASCII, QuoteToGraphic, %q, %+q) tell
+// apart: every Unicode general category they distinguish, and every boundary of their tables.
+
+// SpecialRunes are single code points, one list per class.
+var SpecialRunes = map[string][]rune{
+	"Zs":      {0x20, 0xA0, 0x1680, 0x2000, 0x2001, 0x2002, 0x2003, 0x2004, 0x2005, 0x2006, 0x2007, 0x2008, 0x2009, 0x200A, 0x202F, 0x205F, 0x3000},
+	"Zl":      {0x2028},
+	"Zp":      {0x2029},
+	"Cf":      {0xAD, 0x200B, 0x200C, 0x200D, 0x200E, 0x200F, 0xFEFF, 0x061C, 0x2060, 0x2066, 0xFFF9, 0x110BD, 0xE0001, 0xE007F},
+	"Cc":      {0x00, 0x01, 0x07, 0x08, 0x09, 0x0A, 0x0B, 0x0C, 0x0D, 0x1B, 0x1F, 0x7F, 0x80, 0x85, 0x9F},
+	"Co":      {0xE000, 0xF8FF, 0xF0000, 0xFFFFD, 0x100000, 0x10FFFD},
+	"Cn":      {0x0378, 0x0530, 0x2065, 0xFDD0, 0xFFFE, 0xFFFF, 0x1FFFE, 0x30000 + 0x2000, 0xE0080, 0x10FFFE, 0x10FFFF},
+	"Mn":      {0x0300, 0x0301, 0x0483, 0x20D0, 0xFE00, 0xE0100},
+	"Me":      {0x0488, 0x0489, 0x20DD, 0x20E0, 0xA670},
+	"Mc":      {0x0903, 0x093E},
+	"FFFD":    {0xFFFD},
+	"quoting": {'"', '\'', '\\', '<', '>', '`', '$', '%'},
+	"letters": {'a', 'Z', '0', 0xE9, 0x3B1, 0x4E2D, 0x1F600, 0x10400},
+}
+
+// InvalidUTF8 are byte strings that are not UTF-8: stray continuation and lead bytes, truncated
+// sequences, overlong forms, encodings of the surrogate range and of values above U+10FFFF.
+var InvalidUTF8 = []string{"\x80", "\xbf", "\xc0\x80", "\xc1\xbf", "\xc3", "\xe2\x82", "\xf0\x9f\x98", "\xe0\x80\x80", "\xf0\x80\x80\x80",
+	"\xed\xa0\x80", "\xed\xad\xbf", "\xed\xae\x80", "\xed\xbf\xbf", "\xf4\x90\x80\x80", "\xf5\x80\x80\x80", "\xf8\x88\x80\x80\x80", "\xfe", "\xff"}
+
+// RuneClass names the class of a rune for the evidence histogram.
+func RuneClass(r rune) string {
+	switch {
+	case r == utf8.RuneError:
+		return "FFFD-or-invalid"
+	case r < 0x80 && r >= 0x20 && r != 0x7f:
+		return "ascii-printable"
+	case unicode.Is(unicode.Zs, r):
+		return "Zs"
+	case unicode.Is(unicode.Zl, r):
+		return "Zl"
+	case unicode.Is(unicode.Zp, r):
+		return "Zp"
+	case unicode.Is(unicode.Cf, r):
+		return "Cf"
+	case unicode.Is(unicode.Cc, r):
+		return "Cc"
+	case unicode.Is(unicode.Co, r):
+		return "Co"
+	case unicode.Is(unicode.Cs, r):
+		return "Cs"
+	case unicode.Is(unicode.Mn, r):
+		return "Mn"
+	case unicode.Is(unicode.Me, r):
+		return "Me"
+	case unicode.Is(unicode.Mc, r):
+		return "Mc"
+	case unicode.Is(unicode.C, r) || !unicode.In(r, unicode.L, unicode.M, unicode.N, unicode.P, unicode.S, unicode.Z):
+		return "Cn" // unassigned and noncharacters: in C but in none of Cc, Cf, Co, Cs"
+	case strconv.IsPrint(r):
+		return "other-print"
+	default:
+		return "other-nonprint"
+	}
+}
+
+// StringClasses lists the classes present in s (invalid UTF-8 counted as its own class).
+func StringClasses(s string) []string {
+	seen := map[string]bool{}
+	var out []string
+	for i := 0; i < len(s); {
+		r, w := utf8.DecodeRuneInString(s[i:])
+		cl := RuneClass(r)
+		if r == utf8.RuneError && w == 1 {
+			cl = "invalid-utf8"
+		} else if r == utf8.RuneError {
+			cl = "FFFD"
+		}
+		if !seen[cl] {
+			seen[cl] = true
+			out = append(out, cl)
+		}
+		i += w
+	}
+	return out
+}
+
+var quoteCorpus []string
+
+// QuoteCorpus is the deterministic corpus for quoted text: every special rune and every invalid
+// byte string alone, at the start, in the middle, at the end and doubled; combining marks at the
+// start and after a base; every rune on which strconv.IsPrint and strconv.IsGraphic differ; and
+// every boundary of the IsPrint / IsGraphic tables over the whole code space (both neighbours),
+// packed 48 to a string.
+func QuoteCorpus() []string {
+	if quoteCorpus != nil {
+		return quoteCorpus
+	}
+	var out []string
+	place := func(x string) {
+		out = append(out, x, x+"ab", "a"+x+"b", "ab"+x, x+x, "a"+x+x+"b", x+" "+x)
+	}
+	classes := make([]string, 0, len(SpecialRunes))
+	for k := range SpecialRunes {
+		classes = append(classes, k)
+	}
+	sortStrings(classes)
+	for _, k := range classes {
+		for _, r := range SpecialRunes[k] {
+			place(string(r))
+		}
+	}
+	for _, b := range InvalidUTF8 {
+		place(b)
+	}
+	for _, m := range append(append([]rune{}, SpecialRunes["Mn"]...), SpecialRunes["Me"]...) {
+		out = append(out, string(m)+"a", "a"+string(m), "e"+string(m)+string(m), " "+string(m), "\u00a0"+string(m), string(m)+"\xff")
+	}
+	// where the two predicates differ, and every boundary of either
+	var diff, edge []rune
+	pp, pg := false, false
+	for r := rune(0); r <= unicode.MaxRune; r++ {
+		p, g := strconv.IsPrint(r), strconv.IsGraphic(r)
+		if p != g {
+			diff = append(diff, r)
+		}
+		if r > 0 && (p != pp || g != pg) {
+			edge = append(edge, r-1, r)
+		}
+		pp, pg = p, g
+	}
+	for _, r := range diff {
+		place(string(r))
+	}
+	for i := 0; i < len(edge); i += 48 {
+		j := i + 48
+		if j > len(edge) {
+			j = len(edge)
+		}
+		out = append(out, string(edge[i:j]))
+	}
+	quoteCorpus = out
+	return out
+}
+
+func sortStrings(a []string) {
+	for i := 1; i < len(a); i++ {
+		for j := i; j > 0 && a[j] < a[j-1]; j-- {
+			a[j], a[j-1] = a[j-1], a[j]
+		}
+	}
+}
+
+// SpecialText draws a short string mixing special runes, invalid bytes and ASCII.
+func SpecialText(r *rand.Rand, n int) string {
+	classes := make([]string, 0, len(SpecialRunes))
+	for k := range SpecialRunes {
+		classes = append(classes, k)
+	}
+	sortStrings(classes)
+	var sb strings.Builder
+	for i := 0; i < n; i++ {
+		switch r.Intn(6) {
+		case 0:
+			sb.WriteString(InvalidUTF8[r.Intn(len(InvalidUTF8))])
+		case 1, 2:
+			sb.WriteByte(byte(0x20 + r.Intn(0x5f)))
+		default:
+			l := SpecialRunes[classes[r.Intn(len(classes))]]
+			sb.WriteRune(l[r.Intn(len(l))])
+		}
+	}
+	return sb.String()
+}
+
 // PlainBytes draws printable ASCII (plus, sometimes, well-formed UTF-8 letters) without quotes,
 // backslash, angle brackets and control characters.
 func PlainBytes(r *rand.Rand, n int, utf bool) []byte {
 	var out []byte
 	for len(out) < n {
 		if utf && r.Intn(6) == 0 {
-			out = append(out, []byte(string(rune([]int{0xe9, 0x3b1, 0x4e2d, 0x1f600, 0xa0}[r.Intn(5)])))...)
+			out = append(out, []byte(string(rune([]int{0xe9, 0x3b1, 0x4e2d, 0x1f600, 0xa0, 0x3000}[r.Intn(6)])))...)
 			continue
 		}
 		c := byte(0x20 + r.Intn(0x5f))
@@ -285,8 +458,14 @@ func Leaf(r *rand.Rand, c Cfg) secs2.Item {
 	}
 	switch k {
 	case 0:
+		if r.Intn(5) == 0 {
+			return secs2.NewASCIIItem(SpecialText(r, n))
+		}
 		return secs2.NewASCIIItem(string(RandBytes(r, n)))
 	case 1:
+		if !c.PlainJW && r.Intn(4) == 0 {
+			return secs2.NewJIS8Item(SpecialText(r, n))
+		}
 		if c.PlainJW {
 			return secs2.NewJIS8Item(string(PlainBytes(r, n, false)))
 		}
@@ -294,6 +473,9 @@ func Leaf(r *rand.Rand, c Cfg) secs2.Item {
 	case 2:
 		if c.PlainJW {
 			return secs2.NewUTF8StrItem(string(PlainBytes(r, n, true)))
+		}
+		if r.Intn(2) == 0 {
+			return secs2.NewLocalizedStrItem(uint16(r.Intn(16)), SpecialText(r, n))
 		}
 		return secs2.NewLocalizedStrItem(uint16(r.Intn(16)), string(RandBytes(r, n)))
 	case 3:
